@@ -89,6 +89,11 @@ pub fn check_case(c: &Case) -> Verdict {
     v.class(format!("{:?}-{}", a.sub, match &c.rel { Rel::Library => "library", Rel::Preset(_) => "preset", Rel::Header => "header", Rel::Threads(_) => "threads", Rel::Counts => "counts", Rel::Acgt => "acgt", Rel::Stdin => "stdin", Rel::PyEntry => "py-entry" }));
     let nondefault = [a.counts, a.header, a.preset != Preset::Spc, a.threads != 0, a.alt, a.acgt, a.m2s, a.w != 0, a.stdin].iter().filter(|&&x| x).count();
     v.nontrivial = c.recs.len() >= 2 && nondefault >= 2;
+    v.class_if(a.spell != 0, "options-spelled-long-or-attached");
+    if a.omit_defaults {
+        let (full, short) = (Cmd { omit_defaults: false, ..a.clone() }.args("IN", Some("ALT"), "OUT").len(), a.args("IN", Some("ALT"), "OUT").len());
+        v.class_if(short < full, "defaults-left-out");
+    }
     let dir = crate::scratch_dir();
     // stdin needs an uncompressed stream; everything else uses the generated container
     let cont = if a.stdin || b.stdin { Container { gz: None, ..c.cont.clone() } } else { c.cont.clone() };
@@ -240,7 +245,50 @@ pub fn cmd_strategy() -> BoxedStrategy<(Cmd, Rel)> {
         let cmd = Cmd { k, memory: mem, acgt, threads: t, ..Cmd::base(Sub::Ctr) };
         (Just(cmd), prop_oneof![4 => Just(Rel::Library), 4 => threads_cli().prop_map(Rel::Threads), 4 => Just(Rel::Acgt), 1 => Just(Rel::PyEntry)])
     });
-    prop_oneof![4 => oligo, 2 => cgr, 2 => kcgr, 3 => cov, 3 => min, 3 => ctr].boxed()
+    let base = prop_oneof![4 => oligo, 2 => cgr, 2 => kcgr, 3 => cov, 3 => min, 3 => ctr];
+    // spelling of the options (short / long / long=value / attached) and, in a quarter of the cases,
+    // a random subset of the options reset to their documented defaults and then left out
+    (base, prop_oneof![2 => Just(0u64), 3 => any::<u64>()], prop::bool::weighted(0.25), any::<u16>())
+        .prop_map(|((mut cmd, rel), spell, omit, reset)| {
+            cmd.spell = spell;
+            if omit {
+                cmd.omit_defaults = true;
+                let d = Cmd::base(cmd.sub);
+                let bit = |i: u32| reset >> i & 1 == 1;
+                if bit(0) && matches!(cmd.sub, Sub::Oligo | Sub::Cov) {
+                    cmd.k = d.k;
+                }
+                if bit(1) {
+                    cmd.preset = d.preset;
+                }
+                if bit(2) {
+                    cmd.threads = 0;
+                }
+                if bit(3) {
+                    cmd.bin_size = d.bin_size;
+                }
+                if bit(4) {
+                    cmd.bin_count = d.bin_count;
+                }
+                if bit(5) {
+                    cmd.memory = d.memory;
+                }
+                if bit(6) {
+                    cmd.m = d.m;
+                    if cmd.w != 0 && cmd.w <= cmd.m {
+                        cmd.w = cmd.m + 1 + (cmd.w % 7);
+                    }
+                }
+                if bit(7) {
+                    cmd.w = 0;
+                }
+                if bit(8) {
+                    cmd.m2s = false;
+                }
+            }
+            (cmd, rel)
+        })
+        .boxed()
 }
 
 pub struct Relations;
@@ -257,7 +305,23 @@ impl Leg for Relations {
                 };
                 let p = RecParams { max_records: tier.pick(12, 40), scale, max_len: tier.pick(150, 400), degenerate_w: 0, bounds: [scale, 0, 0], nuc_only: cmd.sub == Sub::Cgr };
                 // relation tests need at least one record (an empty input is C16's subject)
-                (gen::records_mixed_in_container(p), gen::records(p)).prop_map(move |((mut recs, cont), alt)| {
+                // cov: in a third of the cases one more record made of a repeated 40-base unit, so that its k-mers
+                // have a multiplicity next to bin size x {1, bin count}: where the bin edges lie becomes visible
+                let edge = if cmd.sub == Sub::Cov {
+                    let (bs, bc) = (cmd.bin_size as usize, cmd.bin_count as usize);
+                    prop_oneof![
+                        2 => Just(None),
+                        1 => (proptest::collection::vec(prop::sample::select(b"ACGT".to_vec()), 40), prop::sample::select(vec![bs - 1, bs, bs + 1, bs * (bc - 1), bs * bc - 1, bs * bc, 2 * bs]), 0usize..=1)
+                            .prop_map(|(unit, r, d)| Some(unit.repeat(r + d))),
+                    ]
+                    .boxed()
+                } else {
+                    Just(None).boxed()
+                };
+                (gen::records_mixed_in_container(p), gen::records(p), edge).prop_map(move |((mut recs, cont), alt, edge)| {
+                    if let Some(e) = edge {
+                        recs.push(Rec { id: "edge_multiplicity".into(), desc: None, seq: crate::util::Bytes(e) });
+                    }
                     if recs.is_empty() {
                         recs.push(Rec { id: "only".into(), desc: None, seq: crate::util::Bytes(b"ACGTTGCAAGGCTTAACCGGTTACGATCGATCGGCTA".to_vec()) });
                     }
@@ -352,17 +416,131 @@ pub fn check_refuse(c: &RefuseCase) -> Verdict {
     v
 }
 
+// ---------------------------------------------------------------------------------------------
+// generated refusals: a random accepted command in a random spelling with ONE option pushed outside
+// its documented range (also far outside: values that would wrap into the range if truncated)
+
+#[derive(Clone, Debug, Serialize, Deserialize)]
+pub struct RefuseGenCase {
+    pub cmd: Cmd,
+    /// what is out of range (class label)
+    pub what: String,
+}
+
+/// integers outside [lo, hi] (hi = None: unbounded above), including wrap-around candidates
+fn outside(lo: u64, hi: Option<u64>) -> BoxedStrategy<String> {
+    let mut alts: Vec<BoxedStrategy<String>> = Vec::new();
+    if lo > 0 {
+        alts.push((0..lo).prop_map(|x| x.to_string()).boxed());
+        alts.push(Just((lo - 1).to_string()).boxed());
+        alts.push((1i64..=40).prop_map(|x| (-x).to_string()).boxed());
+    }
+    // text that is not an unsigned integer at all
+    alts.push(prop::sample::select(vec!["x", "", "3.5", "1e1", "0x10", "ten", "7 ", "٣"]).prop_map(String::from).boxed());
+    // beyond u64: must be refused whatever the range
+    alts.push((0u64..=40).prop_map(|d| format!("1844674407370955{}", 1616 + d)).boxed());
+    if let Some(hi) = hi {
+        alts.push(Just((hi + 1).to_string()).boxed());
+        alts.push((hi + 1..=hi + 300).prop_map(|x| x.to_string()).boxed());
+        // values that land inside the range when truncated to 8 / 16 / 32 bits
+        alts.push((lo..=hi, prop::sample::select(vec![8u32, 16, 32, 63]), 1u64..=3).prop_map(|(v, b, n)| (((if b == 63 { 1 } else { n }) << b) + v).to_string()).boxed());
+        alts.push(Just(u64::MAX.to_string()).boxed());
+    }
+    proptest::strategy::Union::new(alts).boxed()
+}
+
+pub struct RefuseGen;
+impl Leg for RefuseGen {
+    type Case = RefuseGenCase;
+    const NAME: &'static str = "refusals-generated";
+    fn strategy(_tier: Tier) -> BoxedStrategy<RefuseGenCase> {
+        cmd_strategy()
+            .prop_flat_map(|(cmd, _)| {
+                let m = cmd.m;
+                let choices: Vec<(&'static str, &'static str, BoxedStrategy<String>)> = match cmd.sub {
+                    Sub::Oligo => vec![("-k", "oligo-k", outside(3, Some(7)))],
+                    Sub::KCgr => vec![("-k", "kcgr-k", outside(3, Some(7)))],
+                    Sub::Cgr => vec![("-v", "cgr-v-malformed", prop::sample::select(vec!["x", "-4", "2.5", ""]).prop_map(String::from).boxed())],
+                    Sub::Cov => vec![
+                        ("-k", "cov-k", outside(7, Some(31))),
+                        ("-s", "cov-bin-size", outside(5, None)),
+                        ("-c", "cov-bin-count", outside(5, None)),
+                        ("-m", "cov-memory", outside(6, Some(128))),
+                    ],
+                    Sub::Ctr => vec![("-k", "ctr-k", outside(10, Some(31))), ("-m", "ctr-memory", outside(6, Some(128)))],
+                    Sub::Min => vec![
+                        ("-m", "min-m", outside(7, Some(28))),
+                        // a window not longer than m (0 is the documented whole-record mode)
+                        ("-w", "min-w-not-longer-than-m", prop_oneof![2 => (1..=m).prop_map(|x| x.to_string()), 2 => Just(m.to_string()), 1 => Just("-1".to_string()), 1 => Just("x".to_string())].boxed()),
+                    ],
+                };
+                let n = choices.len();
+                (Just(cmd), 0..n).prop_flat_map(move |(cmd, i)| {
+                    let (opt, what, vals) = choices[i].clone();
+                    (Just(cmd), Just(opt), Just(what), vals)
+                })
+            })
+            .prop_map(|(mut cmd, opt, what, val)| {
+                if opt == "-m" && cmd.sub == Sub::Min && cmd.w != 0 {
+                    // keep the window longer than whatever m would be read, so that only m is at fault
+                    cmd.w = 4000;
+                }
+                cmd.override_opt = Some((opt.to_string(), val));
+                RefuseGenCase { cmd, what: what.to_string() }
+            })
+            .boxed()
+    }
+    fn check(c: &RefuseGenCase) -> Verdict {
+        let mut v = Verdict::new();
+        v.nontrivial = true;
+        v.class(format!("refuse-gen-{}", c.what));
+        let val = &c.cmd.override_opt.as_ref().unwrap().1;
+        v.class_if(val.parse::<u64>().map(|x| x > 255).unwrap_or(false), "refuse-gen-beyond-8-bits");
+        v.class_if(c.cmd.spell != 0, "refuse-gen-spelled");
+        let dir = crate::scratch_dir();
+        let recs = vec![
+            Rec { id: "r1".into(), desc: None, seq: crate::util::Bytes(b"ACGTTGCAAGGCTTAACCGGTTACGATCGATCGGCTAGGCTAGCTAGGATCGA".to_vec()) },
+            Rec { id: "r2".into(), desc: None, seq: crate::util::Bytes(b"TTGACCAGTAGGCTAGCTAGGATCGAACGTTGCAAGGCTTAACCGG".to_vec()) },
+        ];
+        let input = io::write_input(dir.path(), "in", &recs, &Container::plain_fasta());
+        let out = dir.path().join("out_refused");
+        let mut cmd = c.cmd.clone();
+        cmd.stdin = false;
+        let args = cmd.args(&io::path_str(&input), Some(&io::path_str(&input)), &io::path_str(&out));
+        let r = crate::cli::run_cli(&args, None, 60);
+        if r.timed_out {
+            v.class("cli-timeout");
+            return v;
+        }
+        if r.panicked() {
+            v.fail("refusal-by-panic", format!("{:?}: out-of-range value was met with a panic: {}", args, crate::util::trunc(&r.stderr, 300)));
+            return v;
+        }
+        if r.stderr.trim().is_empty() {
+            v.fail("no-diagnostic", format!("{:?}: no diagnostic on stderr (exit {:?})", args, r.code));
+            return v;
+        }
+        if out.exists() {
+            v.fail("output-produced-on-refusal", format!("{:?}: the output location exists after the refusal", args));
+        }
+        v
+    }
+}
+
 pub fn run(ctx: &mut Ctx) {
     let n = ctx.share(ctx.tier.pick(4_000, 60_000));
     ctx.run_leg::<Relations>(n, false, 120);
     let cases: Vec<RefuseCase> = refuse_cases().into_iter().enumerate().filter(|(i, _)| i % ctx.nshards == ctx.shard).map(|(_, c)| c).collect();
     ctx.run_enum("refusals", "fixed list of out-of-range / malformed option values", cases.into_iter(), false, check_refuse);
+    let n = ctx.share(ctx.tier.pick(8_000, 120_000));
+    ctx.run_leg::<RefuseGen>(n, false, 120);
     super::timeouts_inconclusive(ctx);
 }
 
 pub fn replay(leg: &str, case: &serde_json::Value) -> Option<Result<Verdict, String>> {
     match leg {
         "relations" => Some(crate::engine::replay_leg::<Relations>(case)),
+        "refusals-generated" => Some(crate::engine::replay_leg::<RefuseGen>(case)),
         "refusals" => {
             let c: RefuseCase = serde_json::from_value(case.clone()).ok()?;
             Some(crate::engine::guarded(|| check_refuse(&c)))
